@@ -48,7 +48,8 @@ type Cfg struct {
 	FbCap   int     `json:"fbcap,omitempty"`   // v1: capacity of the user supplied feedback channel
 	Tail    int64   `json:"tail,omitempty"`    // join: producer pause before closing (units)
 
-	Cross      int  `json:"cross,omitempty"` // key-mode cross-check: depth of the history-keyed run
+	Cross      int  `json:"cross,omitempty"`      // key-mode cross-check: depth of the history-keyed run
+	NoFallback bool `json:"nofallback,omitempty"` // no iterative preemption bounding after an unfinished unbounded run
 	KeyHistory bool `json:"keyhistory,omitempty"`
 	Bound      int  `json:"bound"` // preemption bound, -1 unbounded
 	Graph      bool `json:"graph,omitempty"`
